@@ -92,3 +92,15 @@ claim("C15",
   "Trusted: go/types, go/ssa, regexp/syntax (used by the checker to parse the pattern constants). Not covered: full language inclusion between the patterns and the parser's token grammar; multi-statement texts beyond the offset rule.",
   "static analysis: field-access scan (who reads Password), def-use check of match offsets on SSA, structural analysis of the pattern constants' syntax trees",
   "DESIGN.md 4/C15")
+
+claim("C05",
+  "The scanner's dispatch is extracted by constant propagation for every first rune (all ASCII plus samples beyond) and every second rune it looks at; on each resulting single path the reads and unreads are counted: the net consumption equals the length of the returned token (so no rune falls between two tokens or into both), and each sub-scanner is entered in one consistent state. The position returned with a token must be captured at its first rune (offset tracking in Scan and every sub-scanner; one known finding: STRING tokens, pinned by the tests). CR / CRLF folding is evaluated over all look-ahead scenarios, and the rune push-back depth stays within the ring on every path. The arithmetic of line/column increments and termination/tiling of the variable-length tokens (identifiers, numbers, strings, comments) are NOT decided.",
+  "Trusted: go/ssa, SCCP evaluator with call hooks, push-back typestate summaries. Not covered: reader.read's counter arithmetic, sticky-EOF counting, the loops of the sub-scanners.",
+  "static analysis: SCCP extraction of the scanner dispatch with read/unread counting; offset typestate for positions; bounded push-back counter",
+  "DESIGN.md 4/C05, 3/E5")
+
+claim("C06",
+  "The escape tables of QuoteString/QuoteIdent are read from their strings.NewReplacer constants and compared with the unescape table and the special runes extracted from ScanString by constant propagation: every pair is inverted by the scanner and every rune the scanner treats specially inside that quote (its closing quote, backslash, newline) is escaped, in one simultaneous pass; both helpers route the value through the replacer on every path. IdentNeedsQuotes answers true for every reserved word the lexer knows (true/false/AND/OR included) and uses the lexer's own predicates; the scanner's identifier entry agrees with isIdentFirstChar for every candidate rune. The 'cannot be broken out of' clause for arbitrary byte strings is a language property of the scanner and is not decided beyond these tables.",
+  "Trusted: go/ssa, SCCP evaluator. Not covered: CR/NUL (excluded by the property), multi-part name segmentation in QuoteIdent beyond routing, malformed UTF-8.",
+  "static analysis: constant extraction of replacer pairs + SCCP extraction of the scanner's unescape/special-rune tables and of the identifier predicates",
+  "DESIGN.md 4/C06")
